@@ -1,0 +1,12 @@
+//go:build verif
+
+package utils
+
+import "sync"
+
+// VerifResetLocalLocks empties the process-wide lock registry (lock objects hold channels and
+// contexts that must not outlive one verification execution).
+// Verification hook: compiled only with -tags verif.
+func VerifResetLocalLocks() {
+	localLockMap = sync.Map{}
+}
